@@ -516,6 +516,9 @@ def sockopt_cases(part):
                 part.violate("C10/tcp/two-open-sockets", f"{ctx}: {worst} sockets open at the same time", case)
             if obs.get("end"):
                 part.violate("C10/tcp/open-after-close", f"{ctx}: {obs['end']} socket(s) still open after close()", case)
+            opens = len([e for e in run.events if e[1] == "open"])
+            if len(pattern) < 10 and R and opens != 1:
+                part.violate("C10/tcp/keepalive-not-reused", f"{ctx}: three successful requests with keep-alive on used {opens} connections", case)
             part.see(f"sockopt|{len(pattern)}|{R}")
 
 
